@@ -190,11 +190,17 @@ TailCount(P, first, n) ==
   IF P[n].ty # "reponly" THEN 0
   ELSE LET it == P[n]  cs == Combos(P, it.mods) IN
        Cardinality({c \in cs: ~\E i \in 1..Len(first): TriggerSet(first[i].from) = TriggerSet(FromMods(P, it.mods, c) \o <<it.key>>)})
+NoDupSeq(s) == \A i, j \in 1..Len(s): s[i] = s[j] => i = j
+\* the mapper refuses a mapping that lists a key twice in its trigger or in its output, so the
+\* loader must not accept a program that expands to one (C14)
+HasDupKeys(ms) == \E i \in 1..Len(ms): ~NoDupSeq(ms[i].from) \/ ~NoDupSeq(ms[i].to)
 Expand(P) ==
   IF Rejected(P) THEN [ok |-> FALSE, blocks |-> <<>>, tailblocks |-> <<>>, mappings |-> <<>>]
   ELSE LET bl == Blocks(P)
-           first == FlattenSeq(bl) IN
-       [ok |-> TRUE, blocks |-> [n \in 1..Len(P) |-> Len(bl[n])],
-        tailblocks |-> [n \in 1..Len(P) |-> TailCount(P, first, n)],
-        mappings |-> RepeatPass(P, first, first, RepeatEntries(P))]
+           first == FlattenSeq(bl)
+           all == RepeatPass(P, first, first, RepeatEntries(P)) IN
+       IF HasDupKeys(all) THEN [ok |-> FALSE, blocks |-> <<>>, tailblocks |-> <<>>, mappings |-> <<>>]
+       ELSE [ok |-> TRUE, blocks |-> [n \in 1..Len(P) |-> Len(bl[n])],
+             tailblocks |-> [n \in 1..Len(P) |-> TailCount(P, first, n)],
+             mappings |-> all]
 =============================================================================
